@@ -173,6 +173,7 @@ class SqliteRecorder(CaseRecorder):
         self._abs2prom = {'input': {}, 'output': {}}
         self._prom2abs = {'input': {}, 'output': {}}
         self._abs2meta = {}
+        self._name_depth = {}
         self._pickle_version = pickle_version
         self._filepath = str(filepath)
 
@@ -376,10 +377,34 @@ class SqliteRecorder(CaseRecorder):
                 constraints = driver._cons
                 objectives = driver._objs
 
-            # merge current abs2prom and prom2abs with this system's version
-            self._abs2prom['input'].update(system._resolver.abs2prom_iter('input'))
-            self._abs2prom['output'].update(system._resolver.abs2prom_iter('output'))
+            # merge current abs2prom and prom2abs with this system's version.
+            # The file has ONE name map for all the requesters that write to it: a variable keeps the
+            # promoted name it has in the namespace of the outermost of them, so that the promoted
+            # names within any case identify its variables (names relative to two different
+            # subsystems can coincide).
+            depth = len(system.pathname.split('.')) if system.pathname else 0
+            owner = self._name_depth
+
+            def mine(abs_name):
+                return owner.get(abs_name, depth) >= depth
+
+            for iotype in ('input', 'output'):
+                abs2prom = self._abs2prom[iotype]
+                prom2abs = self._prom2abs[iotype]
+                for abs_name, prom in system._resolver.abs2prom_iter(iotype):
+                    if mine(abs_name):
+                        stale = abs2prom.get(abs_name)
+                        if stale is not None and stale != prom and abs_name in prom2abs.get(stale, ()):
+                            # named before from within an inner namespace
+                            prom2abs[stale] = [n for n in prom2abs[stale] if n != abs_name]
+                            if not prom2abs[stale]:
+                                del prom2abs[stale]
+                        abs2prom[abs_name] = prom
+
             for v, abs_names in system._resolver.prom2abs_iter('input'):
+                abs_names = [n for n in abs_names if mine(n)]
+                if not abs_names:
+                    continue
                 if v not in self._prom2abs['input']:
                     self._prom2abs['input'][v] = abs_names.copy()
                 else:
@@ -391,7 +416,13 @@ class SqliteRecorder(CaseRecorder):
 
             # for outputs, there can be only one abs name per promoted name
             for v, abs_names in system._resolver.prom2abs_iter('output'):
-                self._prom2abs['output'][v] = abs_names
+                if all(mine(n) for n in abs_names):
+                    self._prom2abs['output'][v] = abs_names
+
+            for iotype in ('input', 'output'):
+                for abs_name, _ in system._resolver.abs2prom_iter(iotype):
+                    if owner.get(abs_name, depth) >= depth:
+                        owner[abs_name] = depth
 
             for name, meta in system.abs_meta_iter('output', local=False, discrete=True):
                 if name not in self._abs2meta:
